@@ -80,6 +80,7 @@ def run(report, p):
         3,
     )
     loops = []
+    helper_loops = {}
     for n in walk_no_nested(fl.node):
         if isinstance(n, ast.For):
             found = None
@@ -94,6 +95,18 @@ def run(report, p):
                 for c in cands:
                     if c[0] == "attr" and c[2] in ("hash_lists", "media_hashes", "hash_entries") and _source_chain(c):
                         found = c[2]
+            if not found:
+                # generator helper of the model:  for rec in hash_list.<helper>()  where the helper loops over self.<attr> and yields
+                for o in pr.origins(n.iter, fl):
+                    if o[0] == "call" and o[1] in p.funcs and p.funcs[o[1]].is_generator() and o[5] is not None and _source_chain(o[5]):
+                        h = p.funcs[o[1]]
+                        hl = [x for x in walk_no_nested(h.node) if isinstance(x, ast.For) and isinstance(x.iter, ast.Attribute) and isinstance(x.iter.value, ast.Name) and h.params and x.iter.value.id == h.params[0] and x.iter.attr in ("hash_lists", "media_hashes", "hash_entries")]
+                        ys = [x for x in walk_no_nested(h.node) if isinstance(x, (ast.Yield, ast.YieldFrom))]
+                        if len(hl) == 1 and ys and all(isinstance(y, ast.Yield) and y.value is not None and norm(y.value) == norm(hl[0].target) and _inside(y, hl[0]) for y in ys):
+                            found = hl[0].iter.attr
+                            helper_loops[id(n)] = (h, hl[0], ys)
+                        else:
+                            raise AnalysisError(f"{fl.loc(n)}: flatten iterates the generator {h.qual}, whose body is not a single loop over one of the model's lists yielding its elements")
             if found:
                 loops.append((n, found))
     kinds = [k for _, k in loops]
@@ -105,6 +118,12 @@ def run(report, p):
         r1.check(is_plain_iter(p, n.iter), fl, n.iter, f"flatten iterates a slice / reordered / filtered view of {k}: later entries could win or entries drop out", construct=n.iter)
         brk = [x for s in n.body for x in ast.walk(s) if isinstance(x, (ast.Break, ast.Return)) and _loop_of(x) is n]
         r1.check(not brk, fl, brk[0] if brk else n, f"the loop over {k} can be left early", construct=f"early exit from loop over {k}")
+        if id(n) in helper_loops:
+            h, hlp, ys = helper_loops[id(n)]
+            r1.instance(h, hlp, f"(helper) for {norm(hlp.target)} in {norm(hlp.iter)}")
+            r1.check(is_plain_iter(p, hlp.iter), h, hlp.iter, f"the helper flatten iterates over yields from a slice / reordered view of {k}", construct=hlp.iter)
+            hb = [x for s_ in hlp.body for x in ast.walk(s_) if isinstance(x, (ast.Break, ast.Return)) and (_loop_of(x) is hlp or isinstance(x, ast.Return))]
+            r1.check(not hb, h, hb[0] if hb else hlp, f"the loop over {k} in {h.name} can be left early: the remaining {k} of that generation never reach the flattened manifest", construct=f"early exit from loop over {k} in helper")
     src_record, src_entry = norm(by["media_hashes"].target), norm(by["hash_entries"].target)
     appends = [c for c, tg in p.calls[fl.qual] if sess_append in tg]
     if not appends:
@@ -123,6 +142,20 @@ def run(report, p):
                 unknown.append((norm(t.ast), l))
             else:
                 roles.append(role)
+        # conditions under which a generator helper yields the record / entry at all
+        for lid, (h, hlp, ys) in helper_loops.items():
+            gh = cfg_of(h)
+            hrec = norm(hlp.target) if hlp.iter.attr == "media_hashes" else "<no record>"
+            hent = norm(hlp.target) if hlp.iter.attr == "hash_entries" else "<no entry>"
+            for y in ys:
+                for t, l in gh.control_deps(gh.node_for(y), through_loops=False):
+                    if t.kind != "test":
+                        continue
+                    role = classify_guard(p, pr, h, t.ast, l, hrec, hent, None)
+                    if role is None:
+                        unknown.append((f"{h.name}: " + norm(t.ast), l))
+                    else:
+                        roles.append(role)
         r1.check(not unknown, fl, a, f"whether an entry is carried over depends on {unknown}, which is neither 'directory record', 'failed entry' nor 'this (path, format) already collected'", construct=f"carry-over conditional on {unknown}")
         r1.check("NOT-FAILED" in roles and "FAILED" not in roles, fl, a, "failed entries are not excluded from the flattened manifest", construct="failed entries kept")
         r1.check("NOT-DIRECTORY" in roles and "DIRECTORY" not in roles, fl, a, "directory records are not excluded from the flattened manifest", construct="directory records kept")
@@ -186,6 +219,8 @@ def _source_chain(o):
             t = t[2][0]
         elif t[0] == "op" and t[1] == "slice" and t[2]:
             t = t[2][0]
+        elif t[0] == "call" and not t[1].endswith("MHLHistory.load_from_path") and t[1].startswith(("ascmhl.hashlist.", "ascmhl.history.")) and len(t) > 5 and t[5] is not None:
+            t = t[5]  # a model method (e.g. a generator helper) on something of the loaded history
         elif t[0] == "call":
             return t[1].endswith("MHLHistory.load_from_path")
         else:
